@@ -22,6 +22,20 @@ EXTERN_MODULE_PREFIXES = ("mypy", "griffe", "logging", "pathlib", "json", "inspe
                           "importlib", "__future__")
 
 
+import os as _os, atexit as _atexit
+_BRLOG = {}
+
+
+def _dump_brlog():
+    if _BRLOG:
+        import sys
+        for k, v in sorted(_BRLOG.items(), key=lambda kv: -kv[1])[:40]:
+            print(f"BR {v:5d} {k}", file=sys.stderr)
+
+
+_atexit.register(_dump_brlog)
+
+
 def _is_literal_term(t):
     if z3.is_string_value(t) or z3.is_int_value(t) or z3.is_true(t) or z3.is_false(t):
         return True
@@ -81,6 +95,7 @@ class Ctx:
         self.sort_terms = []
         self.world_mi = None
         self.rec_schemas = {}              # named record shapes: name -> {key: annotation text | parsed}
+        self.safe_extracts = {}            # ast id -> Extract term known to be in bounds (built by a Python slice)
         self.set_origin = {}               # concrete sid -> sequence the set was built from
 
     # ---------------------------------------------------------------- fresh symbols
@@ -483,19 +498,38 @@ class Ctx:
                 return simp(t.decl()(*ch))
         return t
 
-    def _learn_eq(self, path, cond):
-        """Remember `term == literal` facts for syntactic pruning of later branches."""
-        stack = [cond]
+    def _learn(self, path, cond, value):
+        """Record what a taken branch tells about atomic conditions (syntactic pruning of later branches):
+        truth values of atoms, `term == literal` substitutions, exclusivity of datatype testers."""
+        stack = [(cond, value)]
         while stack:
-            c = stack.pop()
-            if z3.is_and(c):
-                stack.extend(c.children())
-            elif z3.is_eq(c):
-                a, b = c.arg(0), c.arg(1)
-                for x, y in ((a, b), (b, a)):
-                    if _is_literal_term(y) and not _is_literal_term(x):
-                        path.eqs.append((x, y))
-                        break
+            c, v = stack.pop()
+            if z3.is_not(c):
+                stack.append((c.arg(0), not v))
+            elif z3.is_and(c) and v:
+                stack.extend((x, True) for x in c.children())
+            elif z3.is_or(c) and not v:
+                stack.extend((x, False) for x in c.children())
+            elif z3.is_and(c) or z3.is_or(c):
+                path.eqs.append((c, z3.BoolVal(v)))
+            else:
+                path.eqs.append((c, z3.BoolVal(v)))
+                if v and z3.is_eq(c):
+                    a, b = c.arg(0), c.arg(1)
+                    for x, y in ((a, b), (b, a)):
+                        if _is_literal_term(y) and not _is_literal_term(x):
+                            path.eqs.append((x, y))
+                            break
+                if v and z3.is_app(c) and c.decl().kind() == z3.Z3_OP_DT_IS and c.arg(0).sort() == V:
+                    t = c.arg(0)
+                    me = c.decl()
+                    for cn in smt.CTORS:
+                        other = getattr(V, "is_" + cn)(t)
+                        if not z3.eq(other, c):
+                            path.eqs.append((other, z3.BoolVal(False)))
+
+    def _learn_eq(self, path, cond):
+        self._learn(path, cond, True)
 
     def branch(self, path, cond, label=""):
         """Yield (path, bool) for each feasible outcome of a Bool condition."""
@@ -508,12 +542,16 @@ class Ctx:
         if z3.is_false(cond):
             yield path, False
             return
+        if _os.environ.get("PYVC_BRLOG"):
+            _BRLOG[str(cond).replace("\n", " ")[:160]] = _BRLOG.get(str(cond).replace("\n", " ")[:160], 0) + 1
         t_ok = self.feasible(path, cond)
         f_ok = self.feasible(path, z3.Not(cond))
         if t_ok and not f_ok:
+            self._learn(path, cond, True)
             yield path, True
             return
         if f_ok and not t_ok:
+            self._learn(path, cond, False)
             yield path, False
             return
         if not t_ok and not f_ok:
@@ -526,6 +564,7 @@ class Ctx:
         r = path.fork()
         r.pc.append(simp(z3.Not(cond)))
         r.trace.append((label, False))
+        self._learn(r, cond, False)
         yield r, False
 
     # ---------------------------------------------------------------- obligations
